@@ -1,12 +1,13 @@
 # needs: fixes/C20-supertriangle-relative-margin.patch
-from cfgcommon import COMMON_ASSUME
+from cfgcommon import COMMON_ASSUME, twin_job, twin_text, TWIN_TECHNIQUE
 
 CFG = {
 "level": "model_checking",
-"technique": "bounded-exhaustive enumeration of lattice point sets × insertion orders × exact similarity transforms, judged by exact integer orientation / in-circle / separating-axis predicates",
-"jobs": [{"variant": "plain-c20", "id": "C20", "args": {"demand_nonempty": "1"}}],
+"technique": "bounded-exhaustive enumeration of lattice point sets × insertion orders × exact similarity transforms, judged by exact integer orientation / in-circle / separating-axis predicates" + TWIN_TECHNIQUE,
+"jobs": [{"variant": "plain-c20", "id": "C20", "args": {"demand_nonempty": "1"}, "share": 0.85}, twin_job("C20T")],
 "engine": "enum",
-"level_text": "Every subset of size 3..6 (thorough: 3..8) of the 5×5 integer lattice is triangulated by the real triangulation.BowyerWatson; the general-position ones (no three collinear, no four cocircular, decided exactly) additionally in every insertion order up to size 4 (thorough: up to size 5 under every transform and size 6 under identity, 27/256 and offset (+1024,-1024)); each under 10 exact transforms: identity, scales 2^10, 2^-10, 2^-3, the two dyadic scales 27/256 and 27/1024 that straddle SuperTriangle's own height threshold, offsets (±1024, ±1024). The result mesh is judged by exact integer predicates on the lattice coordinates: Position[i] is bit-exactly input point i as (x, 0, y), indices in range, one winding, non-zero area, pairwise disjoint interiors (separating-axis test), empty circumcircles. Every general-position subset is also handed over with eight elements of spare capacity and as a prefix of a longer slice (canonical order and its reverse, two transforms). Structured families beyond the lattice: P_i=(i,i^2), i=1..n for 15 sizes n=6..48 (thorough ..64) plus the interior integer point that lies strictly inside the most circumcircles (one insertion invalidating up to n-3 triangles; the cavity sizes reached are recorded in the bounds), in ascending, descending and even-then-odd order with that point inserted last, first and in the middle, 4 transforms x 3 slice layouts, judged by the same exact predicates (coordinates < 2^12, int64 exact). Exhaustive within these bounds.",
+"engines": ["enum", "sched"],
+"level_text": "Every subset of size 3..6 (thorough: 3..8) of the 5×5 integer lattice is triangulated by the real triangulation.BowyerWatson; the general-position ones (no three collinear, no four cocircular, decided exactly) additionally in every insertion order up to size 4 (thorough: up to size 5 under every transform and size 6 under identity, 27/256 and offset (+1024,-1024)); each under 10 exact transforms: identity, scales 2^10, 2^-10, 2^-3, the two dyadic scales 27/256 and 27/1024 that straddle SuperTriangle's own height threshold, offsets (±1024, ±1024). The result mesh is judged by exact integer predicates on the lattice coordinates: Position[i] is bit-exactly input point i as (x, 0, y), indices in range, one winding, non-zero area, pairwise disjoint interiors (separating-axis test), empty circumcircles. Every general-position subset is also handed over with eight elements of spare capacity and as a prefix of a longer slice (canonical order and its reverse, two transforms). Structured families beyond the lattice: P_i=(i,i^2), i=1..n for 15 sizes n=6..48 (thorough ..64) plus the interior integer point that lies strictly inside the most circumcircles (one insertion invalidating up to n-3 triangles; the cavity sizes reached are recorded in the bounds), in ascending, descending and even-then-odd order with that point inserted last, first and in the middle, 4 transforms x 3 slice layouts, judged by the same exact predicates (coordinates < 2^12, int64 exact). Exhaustive within these bounds." + twin_text("BowyerWatson on three different point sets"),
 "level_note": "Trusted: the integer predicates in harness/props/c20 (cross-checked in c20_test.go against rational circumcentres and exact rational polygon clipping). Degenerate subsets (collinear triple / cocircular quadruple) are executed and labelled but never alarmed. A triangulation of three or more points in general position has at least one triangle, so an empty result for a general-position input is alarmed (job arg demand_nonempty=1, on; the clauses that quantify over triangles would otherwise hold vacuously); hull coverage is likewise only reported ('ok-hull-covered' / 'ok-hull-not-covered'). Point sets outside the lattice family (other magnitudes, non-dyadic coordinates, more than 8 points, aspect ratios above 4) are not claimed.",
 "rule": "one evaluation = one (ordered lattice point sequence, transform) triangulated and judged; non-trivial = general-position input whose result has at least one triangle; distinct by (ordered point sequence, transform)",
 "assumptions": COMMON_ASSUME + [
